@@ -14,6 +14,8 @@ use std::sync::Arc;
 
 pub const STACK_SIZE: usize = 2 * 1024 * 1024; // what std gives a worker spawned without stack_size
 pub const CHILD_WALL_CAP_MS: i32 = 20_000;
+/// pipe to the parent, for the few places that have to give up from deep inside the world
+pub static RESULT_FD: std::sync::atomic::AtomicI32 = std::sync::atomic::AtomicI32::new(-1);
 
 pub fn step_bound(sc: &Scenario) -> usize {
     match sc.engine {
@@ -114,6 +116,10 @@ pub fn run_one(ctx: &mut RunCtx, sc: &Scenario) -> Outcome {
     } else if libc::WIFSIGNALED(status) {
         let sig = libc::WTERMSIG(status);
         oracle::crash_outcome(sc, sig, &data)
+    } else if libc::WEXITSTATUS(status) == 7 {
+        // the code under test did something the simulator cannot model in this run (see
+        // Backend::unsupported): no verdict either way
+        Outcome { inconclusive: Some(String::from_utf8_lossy(&data).to_string()), end: "not_simulable".into(), ..Default::default() }
     } else if libc::WEXITSTATUS(status) != 0 {
         Outcome {
             harness_error: Some(format!("child exit status {} ({})", libc::WEXITSTATUS(status), String::from_utf8_lossy(&data))),
@@ -192,6 +198,9 @@ fn prepare_child(sc: &Scenario, root: &Path, wfd: i32) {
         } else {
             "<non-string panic payload>".to_string()
         };
+        if std::env::var("VERIF_CHILD_BACKTRACE").is_ok() {
+            eprintln!("PANIC pid={} panicking={} {}:{}: {}\n{}", std::process::id(), std::thread::panicking(), file, line, msg, std::backtrace::Backtrace::force_capture());
+        }
         let conn = rt::WORLD.get().and_then(|w| w.st.try_lock().ok().and_then(|s| s.last_conn));
         if let Ok(mut p) = PANICS.lock() {
             p.push(PanicRec { file, line, msg, conn });
@@ -235,6 +244,7 @@ pub fn solo_child(sc: &Scenario, wfd: i32) -> ! {
 }
 
 pub fn child_main(sc: &Scenario, root: &Path, wfd: i32, trace: bool) -> ! {
+    RESULT_FD.store(wfd, std::sync::atomic::Ordering::SeqCst);
     prepare_child(sc, root, wfd);
     if sc.property == "C08" {
         crate::solo::compute(sc);
